@@ -22,6 +22,7 @@ import (
 //   frames:C   no write reachable from an entry point targets caller-owned memory (C10)
 //   frames:G   no write reachable from an entry point targets package-level memory (C12, C11)
 //   commute    every range over a map has an order-independent effect (C11)
+//   nogo       no function of the module starts a goroutine (C12/C11: a call runs sequentially)
 //   bounded    the property's harness under /verif/replay run as a bounded check of the real code (never counted as proved)
 //   logonly    code that is control-dependent on logger state has no other effect (C13)
 func runEngines(p *Program, u *Universe, pc *PropConfig, res *checkResult, tier string) {
@@ -39,6 +40,8 @@ func runEngines(p *Program, u *Universe, pc *PropConfig, res *checkResult, tier 
 			runCursor(p, pc, res, strings.TrimPrefix(e, "cursor:"))
 		case e == "bounded":
 			runBounded(p, pc, res)
+		case e == "nogo":
+			runNoGo(p, pc, res)
 		}
 	}
 }
@@ -568,11 +571,16 @@ func runBounded(p *Program, pc *PropConfig, res *checkResult) {
 	}
 	allKnown := true
 	reported := 0
+	printedFinding := map[string]bool{}
 	for _, key := range order {
 		name := "case@" + key
 		if f := matchFinding(findings, pc.ID, "bounded:"+h.test, name); f != nil {
 			res.known = append(res.known, "bounded:"+h.test+" "+name)
-			fmt.Printf("KNOWN-FINDING: property=%s bounded:%s %s: %s (witness: %s)\n", pc.ID, h.test, name, f.What, f.Witness)
+			if !printedFinding[f.Obligation] {
+				// one line per listed finding (a finding may name a whole enumerated family by prefix)
+				printedFinding[f.Obligation] = true
+				fmt.Printf("KNOWN-FINDING: property=%s bounded:%s %s: %s (witness: %s)\n", pc.ID, h.test, strings.TrimPrefix(f.Obligation, "case@"), f.What, f.Witness)
+			}
 			continue
 		}
 		allKnown = false
@@ -589,5 +597,54 @@ func runBounded(p *Program, pc *PropConfig, res *checkResult) {
 	}
 	if allKnown {
 		res.discharged++
+	}
+}
+
+// runNoGo: the frame argument for C12 (and the determinism argument of C11) treats one call as a
+// sequential computation over memory it owns. A `go` statement anywhere in the module breaks that
+// premise (two goroutines of ONE call may share call-private memory), so its absence is an
+// obligation of its own: one obligation per function, violated by every `go` instruction in it.
+func runNoGo(p *Program, pc *PropConfig, res *checkResult) {
+	findings := loadFindings()
+	for _, n := range p.funcOrder {
+		fn := p.funcs[n]
+		k := 0
+		for _, b := range fn.Blocks {
+			for _, ins := range b.Instrs {
+				g, ok := ins.(*ssa.Go)
+				if !ok {
+					continue
+				}
+				name := fmt.Sprintf("nogo@%s#%d", "go-statement", k)
+				k++
+				pp := p.fset.Position(g.Pos())
+				desc := fmt.Sprintf("%s starts a goroutine at %s:%d (%s): memory private to the call is then shared between goroutines, which the frame obligations do not cover", n, shortPath(pp.Filename, p.repo), pp.Line, g.String())
+				if f := matchFinding(findings, pc.ID, n, name); f != nil {
+					res.known = append(res.known, n+" "+name)
+					fmt.Printf("KNOWN-FINDING: property=%s %s %s: %s\n", pc.ID, n, name, f.What)
+					continue
+				}
+				res.obligations++
+				path := writeSimpleReplay(pc.ID, n, name, desc)
+				concrete := false
+				if rr := runHarness(p, pc.ID); rr != nil {
+					if c, _ := rr["confirmed"].(bool); c {
+						concrete = true
+					}
+					attachReplay(path, rr, concrete)
+				}
+				line := fmt.Sprintf("VIOLATION property=%s replay=%s", pc.ID, path)
+				if !concrete {
+					line += " no-failing-input-found"
+				}
+				addViolationLine(res, line)
+				res.violations = append(res.violations, n+" "+name+": "+desc)
+			}
+		}
+		if k == 0 {
+			res.obligations++
+			res.discharged++
+			res.perSolver["govc-nogo"]++
+		}
 	}
 }
